@@ -505,7 +505,7 @@ Definition required_cell_only : list production := [
   ("geometry_expr", ["geometry_expr"; "union"; "geometry_term"]);
   ("geometry_term", ["geometry_factor"]);
   ("geometry_term", ["geometry_term"; "padding"; "geometry_factor"]);
-  ("geometry_term", ["geometry_term"; "geometry_factory"]);
+  ("geometry_term", ["geometry_term"; "geometry_factor"]);
   ("geometry_term", ["geometry_term"; "padding"]);
   ("geometry_factor", ["geometry_factory"]);
   ("geometry_factor", ["COMPLEMENT"; "geometry_factory"]);
@@ -516,7 +516,11 @@ Definition required_cell_only : list production := [
   ("number_sequence", ["number_sequence"; "("; "number_sequence"; ")"; "padding"]);
   ("number_sequence", ["number_sequence"; ":"; "numerical_phrase"]);
   ("number_sequence", ["("; "number_sequence"; ")"]);
-  ("number_sequence", ["("; "number_sequence"; ")"; "padding"])
+  ("number_sequence", ["("; "number_sequence"; ")"; "padding"]);
+  ("number_sequence", ["number_sequence"; "("; "padding"; "number_sequence"; ")"]);
+  ("number_sequence", ["number_sequence"; "("; "padding"; "number_sequence"; ")"; "padding"]);
+  ("number_sequence", ["("; "padding"; "number_sequence"; ")"]);
+  ("number_sequence", ["("; "padding"; "number_sequence"; ")"; "padding"])
 ].
 Definition required_cell : list production := required_base ++ required_params ++ required_cell_only.
 
@@ -603,13 +607,13 @@ Proof.
   - (* TOne *) intros f IH H. simpl in H. destruct (IH H) as [Hf _]. simpl term_toks.
     rule "geometry_term" ["geometry_factor"]. apply DF_last. assumption.
   - (* TAnd *) intros t IHt sep f IHf H. simpl in H.
-    apply andb_true_iff in H. destruct H as [H Hsep]. apply andb_true_iff in H. destruct H as [Ht Hf].
+    apply andb_true_iff in H. destruct H as [Ht Hf].
     specialize (IHt Ht). destruct (IHf Hf) as [Hfac Hfy]. simpl term_toks. rewrite !classes_app.
     destruct sep as [p|]; simpl opad_toks.
     + rule "geometry_term" ["geometry_term"; "padding"; "geometry_factor"].
       apply DF_cons; [assumption|]. apply DF_cons; [apply pad_derives; exact Hb|]. apply DF_last. assumption.
-    + simpl. rule "geometry_term" ["geometry_term"; "geometry_factory"].
-      apply DF_cons; [assumption|]. apply DF_last. apply Hfy. assumption.
+    + simpl. rule "geometry_term" ["geometry_term"; "geometry_factor"].
+      apply DF_cons; [assumption|]. apply DF_last. assumption.
   - (* EOne *) intros t IH tr H. simpl in H. specialize (IH H). simpl expr_toks. rewrite classes_app.
     rule "geometry_expr" ["geometry_term"]. apply DF_last. apply term_trail. assumption.
   - (* EOr *) intros e IHe pr t IHt tr H. simpl in H. apply andb_true_iff in H. destruct H as [He Ht].
@@ -638,18 +642,27 @@ Proof.
       apply DF_cons; [assumption|apply DF_last; assumption].
     + rule "number_sequence" ["number_sequence"; "shortcut_phrase"].
       apply DF_cons; [assumption|apply DF_last; assumption].
-  - apply andb_true_iff in H. destruct H as [H Hpl]. destruct pl; [discriminate|].
-    apply andb_true_iff in H. destruct H as [Hs Hi]. specialize (IH Hs).
+  - apply andb_true_iff in H. destruct H as [Hs Hi]. specialize (IH Hs).
     pose proof (nlist_derives G Hb inner Hi) as Hin.
-    destruct p as [q|]; simpl opad_toks; cls; rewrite ?app_nil_l.
+    destruct pl as [q0|]; destruct p as [q|]; simpl opad_toks; cls; rewrite ?app_nil_l.
+    + rule "number_sequence" ["number_sequence"; "("; "padding"; "number_sequence"; ")"; "padding"].
+      apply DF_cons; [assumption|]. dtok. apply DF_cons; [apply pad_derives; exact Hb|].
+      apply DF_cons; [assumption|]. dtok. apply DF_last. apply pad_derives; exact Hb.
+    + rule "number_sequence" ["number_sequence"; "("; "padding"; "number_sequence"; ")"].
+      apply DF_cons; [assumption|]. dtok. apply DF_cons; [apply pad_derives; exact Hb|].
+      apply DF_cons; [assumption|]. dend.
     + rule "number_sequence" ["number_sequence"; "("; "number_sequence"; ")"; "padding"].
       apply DF_cons; [assumption|]. dtok. apply DF_cons; [assumption|]. dtok.
       apply DF_last. apply pad_derives; exact Hb.
     + rule "number_sequence" ["number_sequence"; "("; "number_sequence"; ")"].
       apply DF_cons; [assumption|]. dtok. apply DF_cons; [assumption|]. dend.
-  - apply andb_true_iff in H. destruct H as [H Hpl]. destruct pl; [discriminate|].
-    pose proof (nlist_derives G Hb inner H) as Hin.
-    destruct p as [q|]; simpl opad_toks; cls; rewrite ?app_nil_l.
+  - pose proof (nlist_derives G Hb inner H) as Hin.
+    destruct pl as [q0|]; destruct p as [q|]; simpl opad_toks; cls; rewrite ?app_nil_l.
+    + rule "number_sequence" ["("; "padding"; "number_sequence"; ")"; "padding"]. dtok.
+      apply DF_cons; [apply pad_derives; exact Hb|]. apply DF_cons; [assumption|]. dtok.
+      apply DF_last. apply pad_derives; exact Hb.
+    + rule "number_sequence" ["("; "padding"; "number_sequence"; ")"]. dtok.
+      apply DF_cons; [apply pad_derives; exact Hb|]. apply DF_cons; [assumption|]. dend.
     + rule "number_sequence" ["("; "number_sequence"; ")"; "padding"]. dtok.
       apply DF_cons; [assumption|]. dtok. apply DF_last. apply pad_derives; exact Hb.
     + rule "number_sequence" ["("; "number_sequence"; ")"]. dtok.
@@ -1164,6 +1177,7 @@ Proof.
     rule "classifier" ["data_prefix"]. apply DF_last. destruct (x_source x); simpl.
     + rule "data_prefix" ["SOURCE_COMMENT"]. dend.
     + rule "data_prefix" ["TALLY_COMMENT"]. dend.
+  - rewrite classes_app. apply lead_classifier. apply (dcls_derives G Hk_par).
 Qed.
 End Classifier.
 
@@ -1314,6 +1328,8 @@ End TallySeg.
 (* ------------------------------------------------------------------ SDEF (ParamOnlyDataParser) *)
 Definition required_param_only_only : list production := [
   ("param_data_input", ["param_introduction"; "spec_parameters"]);
+  ("param_data_input", ["param_introduction"]);
+  ("classifier_phrase", ["classifier"]);
   ("param_introduction", ["classifier_phrase"]);
   ("param_introduction", ["padding"; "classifier_phrase"]);
   ("classifier_phrase", ["classifier"; "padding"]);
@@ -1403,6 +1419,22 @@ Proof.
   - use_prod.
   - apply Forall_forall. intros x Hx. apply sparam_derives. rewrite forallb_forall in Hps. apply Hps. assumption.
 Qed.
+Theorem sdef0_derivable : forall s, Derives G "param_data_input" (classes (sdef0_toks s)).
+Proof.
+  intros s. unfold sdef0_toks. rewrite !classes_app.
+  assert (Hph : Derives G "classifier_phrase" (classes (dcls_toks (s0_cls s)) ++ classes (opad_toks (s0_pad s)))).
+  { destruct (s0_pad s) as [p|]; simpl opad_toks.
+    - rule "classifier_phrase" ["classifier"; "padding"]. apply DF_cons; [apply (dcls_derives G Hsd_par)|].
+      apply DF_last. apply pad_derives; exact Hsd_base.
+    - rewrite ?classes_nil, ?classes_nil', app_nil_r. rule "classifier_phrase" ["classifier"].
+      apply DF_last. apply (dcls_derives G Hsd_par). }
+  rule "param_data_input" ["param_introduction"]. apply DF_last.
+  destruct (s0_lead s) as [p|]; simpl opad_toks.
+  - rule "param_introduction" ["padding"; "classifier_phrase"].
+    apply DF_cons; [apply pad_derives; exact Hsd_base|]. apply DF_last. exact Hph.
+  - rewrite ?classes_nil, ?classes_nil', app_nil_l.
+    rule "param_introduction" ["classifier_phrase"]. apply DF_last. exact Hph.
+Qed.
 End Sdef.
 
 (* ------------------------------------------------------------------ materials *)
@@ -1414,6 +1446,12 @@ Definition required_material_only : list production := [
   ("isotopes", ["isotope_hybrid_fractions"]);
   ("isotope_hybrid_fractions", ["number_sequence"; "isotope_fraction"]);
   ("isotope_hybrid_fractions", ["isotope_hybrid_fractions"; "isotope_fraction"]);
+  ("isotope_hybrid_fractions", ["isotope_hybrid_fractions"; "plain_fraction"]);
+  ("isotopes", ["isotope_mixed_fractions"]);
+  ("isotope_mixed_fractions", ["isotope_fractions"; "plain_fraction"]);
+  ("isotope_mixed_fractions", ["isotope_mixed_fractions"; "plain_fraction"]);
+  ("isotope_mixed_fractions", ["isotope_mixed_fractions"; "isotope_fraction"]);
+  ("plain_fraction", ["number_phrase"; "number_phrase"]);
   ("isotope_fractions", ["isotope_fraction"]);
   ("isotope_fractions", ["isotope_fractions"; "isotope_fraction"]);
   ("isotope_fraction", ["zaid_phrase"; "number_phrase"]);
@@ -1456,69 +1494,93 @@ Proof.
   - apply DF_last. apply (number_phrase_derives G Hb _ _ H).
 Qed.
 
-(* a ZAID without a library is a NUMBER: the pair is two numerical phrases *)
+(* a ZAID without a library is a NUMBER: the pair is two number phrases *)
 Lemma plain_split : forall z, z_lib z = false -> nonzero (z_frac z) = true ->
   exists a b, classes (zfrac_toks z) = a ++ b /\
-              Derives G "numerical_phrase" a /\ Derives G "numerical_phrase" b.
+              Derives G "number_phrase" a /\ Derives G "number_phrase" b.
 Proof.
   intros z Hl H. exists ("NUMBER" :: classes (opad_toks (z_pad z))), (classes (num_tok (z_frac z) :: opad_toks (z_trail z))).
   split; [unfold zfrac_toks; rewrite Hl, classes_cons, classes_app; reflexivity|]. split.
-  - rule "numerical_phrase" ["number_phrase"]. apply DF_last.
-    destruct (z_pad z) as [p|]; simpl opad_toks.
+  - destruct (z_pad z) as [p|]; simpl opad_toks.
     + rule "number_phrase" ["NUMBER"; "padding"]. dtok. apply DF_last. apply pad_derives; exact Hb.
     + rule "number_phrase" ["NUMBER"]. dend.
-  - apply (numerical_phrase_derives G Hb).
+  - apply (number_phrase_derives G Hb _ _ H).
 Qed.
 
-(* what the pairs read so far are: only plain pairs (a number_sequence), or — once a ZAID with a library has been
-   seen — isotope_fractions / isotope_hybrid_fractions *)
-Definition iso_state (seen : bool) (ts : list string) : Prop :=
-  if seen then Derives G "isotope_fractions" ts \/ Derives G "isotope_hybrid_fractions" ts
-  else Derives G "number_sequence" ts.
+Lemma num_of_phrase : forall a, Derives G "number_phrase" a -> Derives G "numerical_phrase" a.
+Proof. intros a H. rule "numerical_phrase" ["number_phrase"]. apply DF_last. exact H. Qed.
 
-Lemma iso_more : forall l seen pre,
-  iso_state seen pre -> plain_first seen l = true -> forallb (fun z => nonzero (z_frac z)) l = true ->
-  exists seen', iso_state seen' (pre ++ flat_map (fun z => classes (zfrac_toks z)) l).
+(* what the pairs read so far are: only plain pairs (a number_sequence), plain pairs followed by pairs of either kind
+   (isotope_hybrid_fractions), only ZAIDs with a library (isotope_fractions), or those followed by pairs of either
+   kind (isotope_mixed_fractions) *)
+Inductive iso_kind := IKplain | IKhybrid | IKlib | IKmixed.
+Definition iso_nt (k : iso_kind) : string :=
+  match k with
+  | IKplain => "number_sequence" | IKhybrid => "isotope_hybrid_fractions"
+  | IKlib => "isotope_fractions" | IKmixed => "isotope_mixed_fractions"
+  end.
+
+Lemma iso_more : forall l k pre,
+  Derives G (iso_nt k) pre -> forallb (fun z => nonzero (z_frac z)) l = true ->
+  exists k', Derives G (iso_nt k') (pre ++ flat_map (fun z => classes (zfrac_toks z)) l).
 Proof.
-  induction l as [|z l IH]; intros seen pre Hst Hpf Hnz; cbn [flat_map].
-  - exists seen. rewrite app_nil_r. exact Hst.
-  - simpl in Hpf, Hnz. apply andb_true_iff in Hnz. destruct Hnz as [Hz Hnz]. rewrite app_assoc.
+  induction l as [|z l IH]; intros k pre Hst Hnz; cbn [flat_map].
+  - exists k. rewrite app_nil_r. exact Hst.
+  - simpl in Hnz. apply andb_true_iff in Hnz. destruct Hnz as [Hz Hnz]. rewrite app_assoc.
     destruct (z_lib z) eqn:El.
-    + apply (IH true); [|exact Hpf|exact Hnz].
-      pose proof (zfrac_derives z El Hz) as HZ. unfold iso_state in *. destruct seen.
-      * destruct Hst as [Hs|Hs].
-        -- left. rule "isotope_fractions" ["isotope_fractions"; "isotope_fraction"].
-           apply DF_cons; [exact Hs|apply DF_last; exact HZ].
-        -- right. rule "isotope_hybrid_fractions" ["isotope_hybrid_fractions"; "isotope_fraction"].
-           apply DF_cons; [exact Hs|apply DF_last; exact HZ].
-      * right. rule "isotope_hybrid_fractions" ["number_sequence"; "isotope_fraction"].
+    + pose proof (zfrac_derives z El Hz) as HZ. destruct k; simpl iso_nt in Hst.
+      * apply (IH IKhybrid); [|exact Hnz]. simpl.
+        rule "isotope_hybrid_fractions" ["number_sequence"; "isotope_fraction"].
         apply DF_cons; [exact Hst|apply DF_last; exact HZ].
-    + apply andb_true_iff in Hpf. destruct Hpf as [Hseen Hpf]. destruct seen; [discriminate|].
-      apply (IH false); [|exact Hpf|exact Hnz].
-      destruct (plain_split z El Hz) as [a [b [E [Ha Hbb]]]]. rewrite E, app_assoc. unfold iso_state in *.
-      rule "number_sequence" ["number_sequence"; "numerical_phrase"]. apply DF_cons; [|apply DF_last; exact Hbb].
-      rule "number_sequence" ["number_sequence"; "numerical_phrase"]. apply DF_cons; [exact Hst|apply DF_last; exact Ha].
+      * apply (IH IKhybrid); [|exact Hnz]. simpl.
+        rule "isotope_hybrid_fractions" ["isotope_hybrid_fractions"; "isotope_fraction"].
+        apply DF_cons; [exact Hst|apply DF_last; exact HZ].
+      * apply (IH IKlib); [|exact Hnz]. simpl.
+        rule "isotope_fractions" ["isotope_fractions"; "isotope_fraction"].
+        apply DF_cons; [exact Hst|apply DF_last; exact HZ].
+      * apply (IH IKmixed); [|exact Hnz]. simpl.
+        rule "isotope_mixed_fractions" ["isotope_mixed_fractions"; "isotope_fraction"].
+        apply DF_cons; [exact Hst|apply DF_last; exact HZ].
+    + destruct (plain_split z El Hz) as [a [b [E [Ha Hbb]]]]. rewrite E.
+      assert (HP : Derives G "plain_fraction" (a ++ b)).
+      { rule "plain_fraction" ["number_phrase"; "number_phrase"]. apply DF_cons; [exact Ha|apply DF_last; exact Hbb]. }
+      destruct k; simpl iso_nt in Hst.
+      * apply (IH IKplain); [|exact Hnz]. simpl. rewrite app_assoc.
+        rule "number_sequence" ["number_sequence"; "numerical_phrase"].
+        apply DF_cons; [|apply DF_last; apply num_of_phrase; exact Hbb].
+        rule "number_sequence" ["number_sequence"; "numerical_phrase"].
+        apply DF_cons; [exact Hst|apply DF_last; apply num_of_phrase; exact Ha].
+      * apply (IH IKhybrid); [|exact Hnz]. simpl.
+        rule "isotope_hybrid_fractions" ["isotope_hybrid_fractions"; "plain_fraction"].
+        apply DF_cons; [exact Hst|apply DF_last; exact HP].
+      * apply (IH IKmixed); [|exact Hnz]. simpl.
+        rule "isotope_mixed_fractions" ["isotope_fractions"; "plain_fraction"].
+        apply DF_cons; [exact Hst|apply DF_last; exact HP].
+      * apply (IH IKmixed); [|exact Hnz]. simpl.
+        rule "isotope_mixed_fractions" ["isotope_mixed_fractions"; "plain_fraction"].
+        apply DF_cons; [exact Hst|apply DF_last; exact HP].
 Qed.
 
 Lemma isotopes_derives : forall z l,
-  plain_first false (z :: l) = true -> forallb (fun z => nonzero (z_frac z)) (z :: l) = true ->
+  forallb (fun z => nonzero (z_frac z)) (z :: l) = true ->
   Derives G "isotopes" (classes (zfrac_toks z) ++ flat_map (fun z => classes (zfrac_toks z)) l).
 Proof.
-  intros z l Hpf Hnz. simpl in Hpf, Hnz. apply andb_true_iff in Hnz. destruct Hnz as [Hz Hnz].
-  assert (Hex : exists seen, iso_state seen (classes (zfrac_toks z)) /\ plain_first seen l = true).
+  intros z l Hnz. simpl in Hnz. apply andb_true_iff in Hnz. destruct Hnz as [Hz Hnz].
+  assert (Hex : exists k, Derives G (iso_nt k) (classes (zfrac_toks z))).
   { destruct (z_lib z) eqn:El.
-    - exists true. split; [|exact Hpf]. left. rule "isotope_fractions" ["isotope_fraction"]. apply DF_last.
+    - exists IKlib. cbn [iso_nt]. rule "isotope_fractions" ["isotope_fraction"]. apply DF_last.
       apply zfrac_derives; assumption.
-    - exists false. simpl in Hpf. split; [|exact Hpf].
-      destruct (plain_split z El Hz) as [a [b [E [Ha Hbb]]]]. rewrite E. unfold iso_state.
-      rule "number_sequence" ["number_sequence"; "numerical_phrase"]. apply DF_cons; [|apply DF_last; exact Hbb].
-      rule "number_sequence" ["numerical_phrase"]. apply DF_last. exact Ha. }
-  destruct Hex as [seen [Hst Hpf']].
-  destruct (iso_more l seen _ Hst Hpf' Hnz) as [seen' Hfin]. unfold iso_state in Hfin. destruct seen'.
-  - destruct Hfin as [H|H].
-    + rule "isotopes" ["isotope_fractions"]. apply DF_last. exact H.
-    + rule "isotopes" ["isotope_hybrid_fractions"]. apply DF_last. exact H.
+    - exists IKplain.
+      destruct (plain_split z El Hz) as [a [b [E [Ha Hbb]]]]. cbn [iso_nt]. rewrite E.
+      rule "number_sequence" ["number_sequence"; "numerical_phrase"].
+      apply DF_cons; [|apply DF_last; apply num_of_phrase; exact Hbb].
+      rule "number_sequence" ["numerical_phrase"]. apply DF_last. apply num_of_phrase. exact Ha. }
+  destruct Hex as [k Hst].
+  destruct (iso_more l k _ Hst Hnz) as [k' Hfin]. destruct k'; simpl iso_nt in Hfin.
   - rule "isotopes" ["number_sequence"]. apply DF_last. exact Hfin.
+  - rule "isotopes" ["isotope_hybrid_fractions"]. apply DF_last. exact Hfin.
+  - rule "isotopes" ["isotope_fractions"]. apply DF_last. exact Hfin.
+  - rule "isotopes" ["isotope_mixed_fractions"]. apply DF_last. exact Hfin.
 Qed.
 
 Lemma mparam_derives : forall m, mparam_ok m = true -> Derives G "parameter" (classes (mparam_toks m)).
@@ -1545,14 +1607,14 @@ Qed.
 Theorem material_derivable : forall m, matcard_shape m -> Derives G "material" (classes (mat_card_toks m)).
 Proof.
   intros m H. unfold matcard_shape, matcard_shape_b in H.
-  apply andb_true_iff in H. destruct H as [H Hps]. apply andb_true_iff in H. destruct H as [H Hpf].
+  apply andb_true_iff in H. destruct H as [H Hps].
   apply andb_true_iff in H. destruct H as [Hn Hz].
   assert (Hcl : Derives G "classifier" ["TEXT"; "NUMBER"]).
   { rule "classifier" ["classifier"; "NUMBER"]. change ["TEXT"; "NUMBER"] with (["TEXT"] ++ ["NUMBER"]).
     apply DF_cons; [|dend]. rule "classifier" ["data_prefix"]. apply DF_last. rule "data_prefix" ["TEXT"]. dend. }
   pose proof (intro_derives G Hb Hm_intro (m_lead m) _ (m_pad m) None Hcl) as HI.
   rewrite ?classes_nil, ?classes_nil', app_nil_r in HI.
-  pose proof (isotopes_derives (m_first m) (m_rest m) Hpf Hz) as HZ.
+  pose proof (isotopes_derives (m_first m) (m_rest m) Hz) as HZ.
   unfold mat_card_toks. rewrite !classes_app, !classes_flat_map.
   change (classes [("TEXT", "m"); ("NUMBER", show_Z (m_num m))]) with ["TEXT"; "NUMBER"].
   match goal with
@@ -1772,5 +1834,6 @@ Proof.
   - rewrite (start_ok "tally_seg" "tally") by (simpl; auto 10). apply (tallyseg_derivable _ Hseg). exact H.
   - rewrite (start_ok "param_only" "param_data_input") by (simpl; auto 10). apply (sdef_derivable _ Hsd). exact H.
   - rewrite (start_ok "data" "data_input") by (simpl; auto). apply (text_derivable _ Hdata).
+  - rewrite (start_ok "param_only" "param_data_input") by (simpl; auto 10). apply (sdef0_derivable _ Hsd).
 Qed.
 End AllShapes.
